@@ -9,3 +9,8 @@ mod utils;
 pub use engine::BRC20ProgEngine;
 pub use precompiles::validate_bitcoin_rpc_status;
 pub use utils::{get_evm_address_from_pkscript, TxInfo};
+
+#[cfg(feature = "verif")]
+pub use hardforks::{get_evm_spec, use_rlp_hash_for_tx_hash, verif_fork_heights};
+#[cfg(feature = "verif")]
+pub use utils::{get_gas_limit, get_inscription_byte_len};
